@@ -25,7 +25,7 @@ func init() {
 			}
 			return prepStdh("san")(c)
 		},
-		rule: "rapid-generated (decoder kind, input, buffer configuration) runs of every std decoder/hasher reached through the six base interfaces in the C regenerated from the tree, built with ASan+UBSan(bounds-strict) and aborting allocator stubs. Inputs: real files of the format from test/data, files produced on the fly by independent Go encoders, 0-3 structure-aware corruptions (truncation, header-biased bit flips, field extremes, splices, insert/delete; checksums repaired with probability 1/2 for png/gzip/zlib), cross-format confusion, raw bytes. Configuration: source chunking (one-shot, fixed 1..4096, single split, random multi-splits, exact-size heap buffers so that over-reads trap), destination (ample / growing window / fresh exact-size windows honouring dst_history_retain_length), work buffer (min / max / one byte short), init flags and garbage pre-fill, destination pixel formats, quirks. Oracle after every call: sanitizer silence, no allocator call, 0<=ri<=wi<=len, indexes monotone, source bytes and already-written destination bytes unchanged, pos/closed/ptr/len untouched, status well-formed and never 'internal error', no $short read on a closed source, no $short write into an empty >=64KiB destination, calls bounded by 8*(bytes supplied + windows) + 4096, alarm re-confirmed with 3x budget. Non-trivial = run got past the format's first header (output byte, image config, token or hash) with a non-one-shot configuration and at least one resumed suspension (hashers: >= 1 update); distinct by (kind, input, plan).",
+		rule: "rapid-generated (decoder kind, input, buffer configuration) runs of every std decoder/hasher reached through the six base interfaces in the C regenerated from the tree, built with ASan+UBSan(bounds-strict) and aborting allocator stubs. Inputs: real files of the format from test/data, files produced on the fly by independent Go encoders, 0-3 structure-aware corruptions (truncation, header-biased bit flips, field extremes, splices, insert/delete; checksums repaired with probability 1/2 for png/gzip/zlib), cross-format confusion, raw bytes. Configuration: source chunking (one-shot, fixed 1..4096, single split, random multi-splits; every source piece, destination window, work buffer and pixel buffer has exactly the announced size and ends at an inaccessible page, inside an ASan-poisoned arena, so that an access past the end faults even from SIMD intrinsics the sanitizer does not instrument, and under-runs are reported by ASan), destination (ample / growing window / fresh exact-size windows honouring dst_history_retain_length), work buffer (min / max / one byte short), init flags and garbage pre-fill, destination pixel formats, quirks. Oracle after every call: sanitizer silence, no allocator call, 0<=ri<=wi<=len, indexes monotone, source bytes and already-written destination bytes unchanged, pos/closed/ptr/len untouched, status well-formed and never 'internal error', no $short read on a closed source, no $short write into an empty >=64KiB destination, calls bounded by 8*(bytes supplied + windows) + 4096, alarm re-confirmed with 3x budget. Non-trivial = run got past the format's first header (output byte, image config, token or hash) with a non-one-shot configuration and at least one resumed suspension (hashers: >= 1 update); distinct by (kind, input, plan). Thorough tier only: a 15-minute libFuzzer campaign (16 forked workers, clang ASan+UBSan, edge coverage) over the same harness, seeded with every corpus file of at most 8 KiB under four buffer plans; artifacts are converted back to ordinary cases and judged by the same oracle; executed inputs count as evaluations, inputs kept for new coverage as distinct cases.",
 		assumptions:   []string{"gcc 12 ASan/UBSan report every violation they instrument; UBSan's nonnull-attribute check is off (memset/memcpy of length 0 with a null pointer is not a dereference; see DESIGN 6)", "overflows that stay inside one struct field array and unsigned wrap-around in std/ are invisible (no checked build)"},
 		minNontrivial: 300,
 		quick:         tier{jobs: []job{{name: "std-safety", run: "^TestProp$", shards: 16, checks: 250, timeout: 25 * time.Minute}}},
